@@ -17,6 +17,13 @@ function toArg(a) {
     case "nan": return NaN;
     case "inf": return Infinity;
     case "ninf": return -Infinity;
+    case "bigint": return BigInt(a.s || "1");
+    case "sym": return Symbol("s");
+    case "fn": return function () { return 1; };
+    case "date": return new Date(0);
+    case "u8": return new Uint8Array(4);
+    case "strobj": return new String(a.s || "6");
+    case "numobj": return new Number(a.n === undefined ? 1 : a.n);
     default: return undefined;
   }
 }
@@ -33,8 +40,17 @@ const realLog = console.log;
 console.log = () => {}; // index.js prints a banner
 (async () => {
   let exportsObj;
+  const indexPath = path.join(dir, "src", "index.js");
+  // a fresh instance of the module (used at start, and again whenever a call has killed the Go program, so that the
+  // cases after the fatal one are still judged on their own)
+  async function load() {
+    for (const k of Object.keys(require.cache)) if (k.startsWith(path.join(dir, "src"))) delete require.cache[k];
+    for (const n of ["generateHOTP", "validateHOTP", "generateTOTP", "validateTOTP", "generateOTPURL"]) delete globalThis[n];
+    return await require(indexPath)();
+  }
+  let reloads = 0;
   try {
-    exportsObj = await require(path.join(dir, "src", "index.js"))();
+    exportsObj = await load();
   } catch (e) {
     fs.writeFileSync(outPath, JSON.stringify({ fatal: "module did not initialise: " + String(e && e.message || e) }));
     process.exit(3);
@@ -46,7 +62,11 @@ console.log = () => {}; // index.js prints a banner
     const g = call(globalThis[c.fn], args);
     const x = call(exportsObj[c.fn], args);
     out.push({ id: c.id, global: g, exported: x });
+    const dead = (r) => r.t === "thrown" && /already exited/.test(r.thrown || "");
+    if ((dead(g) || dead(x)) && reloads < 200) {
+      try { exportsObj = await load(); reloads++; } catch (e) { /* keep the dead instance: later cases report it */ }
+    }
   }
-  fs.writeFileSync(outPath, JSON.stringify({ exported_names: Object.keys(exportsObj), results: out }));
+  fs.writeFileSync(outPath, JSON.stringify({ exported_names: Object.keys(exportsObj), results: out, module_reloads: reloads }));
   process.exit(0);
 })();
